@@ -480,26 +480,8 @@ func Select(hasDefault bool, cases ...Case) int {
 		return i
 	}
 	st := &waitState{chosen: -1}
-	if !hasDefault {
-		for i, c := range cases {
-			c.register(st, i) // visible to peers while this thread is blocked
-		}
-	}
 	panics := false
-	s.point(&op{kind: "select/chan op", enabled: func() bool {
-		if st.done || hasDefault {
-			return true
-		}
-		for _, c := range cases {
-			if c.ready(st) {
-				return true
-			}
-		}
-		return false
-	}, perform: func() {
-		if st.done {
-			return // a peer completed one of our cases (value already delivered)
-		}
+	pick := func() bool {
 		var ready []int
 		for i, c := range cases {
 			if c.ready(st) {
@@ -507,8 +489,7 @@ func Select(hasDefault bool, cases ...Case) int {
 			}
 		}
 		if len(ready) == 0 {
-			st.done = true // default
-			return
+			return false
 		}
 		k := 0
 		if len(ready) > 1 {
@@ -517,7 +498,42 @@ func Select(hasDefault bool, cases ...Case) int {
 		st.chosen = ready[k]
 		st.done = true
 		panics = cases[st.chosen].fire(st)
+		return true
+	}
+	// Phase A: the statement executes. It completes at once if a case is ready (or takes default); otherwise the
+	// thread parks: only from this moment is it visible to its peers as a waiting sender/receiver. A thread that
+	// has reached the statement but has not executed it yet is NOT parked (a peer's non-blocking send finds nobody).
+	s.point(&op{kind: "select/chan op", enabled: func() bool { return true }, perform: func() {
+		if pick() {
+			return
+		}
+		if hasDefault {
+			st.done = true // default
+			return
+		}
+		for i, c := range cases {
+			c.register(st, i)
+		}
 	}})
+	if !st.done {
+		// Phase B: parked until a peer completes one of the cases or one becomes ready.
+		s.point(&op{kind: "parked in select/chan op", enabled: func() bool {
+			if st.done {
+				return true
+			}
+			for _, c := range cases {
+				if c.ready(st) {
+					return true
+				}
+			}
+			return false
+		}, perform: func() {
+			if st.done {
+				return // a peer completed one of our cases (value already delivered)
+			}
+			pick()
+		}})
+	}
 	if panics {
 		panic("send on closed channel")
 	}
